@@ -33,7 +33,7 @@ def h64_str(s):
 REPO = os.environ.get('COMA_REPO', '/repo')
 PY = os.environ.get('COMA_PY', '/venv/bin/python')
 # evidence and replay witnesses of runs against a scratch tree (COMA_REPO set) are not evidence for /repo
-OUT_BASE = VERIF if REPO == '/repo' else os.path.join(tempfile.gettempdir(), 'vf_scratch_' + h64_str(REPO))
+OUT_BASE = os.environ.get('VF_OUT_BASE') or (VERIF if REPO == '/repo' else os.path.join(tempfile.gettempdir(), 'vf_scratch_' + h64_str(REPO)))
 
 
 def use_repo():
